@@ -1966,6 +1966,37 @@ int aprop(uint64_t seed, const std::string& tier, const std::string& outdir) {
             } else stats["welpi-apply-threw"]++;
         } else stats["welpi-deck-failed"]++;
     }
+    // fixed probe (known finding act.runtime-cell-unknown): an action widens a well list, a LATER-step COMPDAT with defaulted
+    // I,J then reaches a well whose head cell in that layer nobody looked up while the deck was loaded
+    {
+        auto mk = [&](bool inlined) {
+            std::string t = PREAMBLE;
+            t += "WELSPECS\n 'I1' 'G1' 6 2 1* 'OIL' /\n 'P3' 'G1' 4 1 1* 'OIL' /\n/\n";
+            t += "COMPDAT\n 'I1' 0 0 1 1 'OPEN' 2* 0.2 /\n 'P3' 0 0 1 1 'OPEN' 2* 0.2 /\n/\n";
+            t += "WLIST\n '*L1' 'NEW' 'I1' /\n/\n";
+            t += "ACTIONX\n 'ACTP1' 100 /\n WWCT 'I1' > 0.5 /\n/\nWLIST\n '*L1' 'NEW' '*L1' 'P3' /\n/\nENDACTIO\n";
+            t += "TSTEP\n 10 /\n";
+            if (inlined) t += "WLIST\n '*L1' 'NEW' '*L1' 'P3' /\n/\n";
+            t += "TSTEP\n 10 /\n";
+            t += "COMPDAT\n '*L1' 0 0 2 2 'OPEN' 2* 0.2 /\n/\n";
+            t += "TSTEP\n 10 /\n";
+            return t;
+        };
+        auto deckA = std::make_shared<Deck>(parseText(mk(false)));
+        auto deckB = std::make_shared<Deck>(parseText(mk(true)));
+        Real app = build(deckA), inl = build(deckB);
+        if (app.ok && inl.ok) {
+            bool okA = true;
+            try {
+                const Action::ActionX act = (*app.sched)[1].actions()["ACTP1"];
+                const auto res = Action::Result{ true }.wells({ "I1" });
+                app.sched->applyAction(1, act, res.matches(), std::unordered_map<std::string, double>{});
+            } catch (const std::exception&) { okA = false; }
+            if (!okA) log.fail("act.runtime-cell-unknown", "ACTIONX{WLIST '*L1' NEW '*L1' 'P3'} applied at step 1 throws (a later COMPDAT '*L1' 0 0 2 2 reaches P3, whose cell (4,1,2) is unknown to the run-time grid) although the deck with the WLIST inlined at the end of step 1 loads");
+            else if (stripMarker(dumpState(*app.sched, 2)) != stripMarker(dumpState(*inl.sched, 2))) log.fail("act.runtime-cell-differs", "state 2 differs from the inlined deck");
+            else log.ok();
+        } else stats["runtime-cell-deck-failed"]++;
+    }
     std::ofstream f(outdir + "/prop_stats.json");
     f << "{\n  \"checked\": " << log.checked << ",\n  \"failed\": " << log.failed;
     for (auto& kv : stats) f << ",\n  \"" << kv.first << "\": " << kv.second;
